@@ -87,4 +87,68 @@ theorem boundary_of_content_type (bkey : Bytes) (hne : bkey ≠ []) (htok : ∀ 
       simp [kBoundary, hbe, Spec.delimiter, Spec.crlf, Spec.dashes, ofNats, Gen.boundaryPrefix]
     · intro h; cases h
 
+/-- `content_type::parse`'s parameter syntax with a quoted value -/
+theorem parsePairG_true_quoted (key v t : Bytes) (hk : key ≠ []) (hkt : ∀ x ∈ key, tokenChar x = true) :
+    parsePairG true (59 :: 32 :: (key ++ 61 :: (Spec.quote v ++ t))) = some (key, v, t) := by
+  have hsemi : UInt8.ofNat Gen.pairSemicolon = 59 := by decide
+  have heq : UInt8.ofNat Gen.pairEquals = 61 := by decide
+  have hq : UInt8.ofNat Gen.pairQuote = 34 := by decide
+  have hts : tokenSpan (key ++ 61 :: (Spec.quote v ++ t)) = (key, 61 :: (Spec.quote v ++ t)) :=
+    tokenSpan_eq key _ hkt (by intro y ys e; cases e; decide)
+  have hkne : key.isEmpty = false := by cases key <;> simp_all
+  have hkne2 : (key ++ 61 :: (Spec.quote v ++ t)).isEmpty = false := by cases key <;> simp_all
+  have hqs : Spec.quote v ++ t = 34 :: ((v.flatMap esc ++ [34]) ++ t) := by rw [quote_eq]; rfl
+  have hsk : skipWs (Spec.quote v ++ t) = Spec.quote v ++ t := by
+    rw [hqs]; exact skipWs_id 34 _ (by decide) (by decide)
+  have hsk1 : skipWs (key ++ 61 :: (Spec.quote v ++ t)) = key ++ 61 :: (Spec.quote v ++ t) := by
+    cases key with
+    | nil => exact absurd rfl hk
+    | cons x xs =>
+      have hx := token_not_blank x (hkt x List.mem_cons_self)
+      exact skipWs_id x _ hx.1 hx.2
+  have hsk2 : skipWs (61 :: (Spec.quote v ++ t)) = 61 :: (Spec.quote v ++ t) := skipWs_id 61 _ (by decide) (by decide)
+  unfold parsePairG
+  simp only [hsemi, bne_self_eq_false, Bool.false_eq_true, if_false, skipWs_blank, hsk1, hkne2, hts, hkne, if_true, hsk2, heq, hsk]
+  rw [hqs]
+  simp only [hq, beq_self_eq_true, if_true]
+  rw [← hqs, unquote_quote]
+
+/-- a quoted boundary parameter — any non-empty byte string, written as a quoted-string — is
+read back exactly -/
+theorem boundary_of_content_type_quoted (bkey : Bytes) (hne : bkey ≠ []) :
+    mediaType (litMultipartCT ++ Spec.quote bkey) = ctMultipart
+    ∧ mkBoundary (litMultipartCT ++ Spec.quote bkey) = some (Spec.delimiter bkey) := by
+  obtain ⟨hlit, hm, hf, hbd, hlow, hlb⟩ := ct_lit_facts
+  have hshape : litMultipartCT ++ Spec.quote bkey = kMultipart ++ 47 :: (kFormData ++ 59 :: 32 :: (kBoundary ++ 61 :: (Spec.quote bkey ++ []))) := by
+    rw [hlit]; nf
+  have hsk0 : skipWs (kMultipart ++ 47 :: (kFormData ++ 59 :: 32 :: (kBoundary ++ 61 :: (Spec.quote bkey ++ [])))) =
+      kMultipart ++ 47 :: (kFormData ++ 59 :: 32 :: (kBoundary ++ 61 :: (Spec.quote bkey ++ []))) := by
+    show skipWs (109 :: _) = _
+    exact skipWs_id 109 _ (by decide) (by decide)
+  have hmtr : mediaTypeRest (litMultipartCT ++ Spec.quote bkey) = (ctMultipart, 59 :: 32 :: (kBoundary ++ 61 :: (Spec.quote bkey ++ []))) := by
+    rw [hshape]
+    unfold mediaTypeRest
+    simp only [hsk0, tokenSpan_eq kMultipart (47 :: (kFormData ++ 59 :: 32 :: (kBoundary ++ 61 :: (Spec.quote bkey ++ [])))) hm
+        (by intro y ys e; cases e; decide),
+      tokenSpan_eq kFormData (59 :: 32 :: (kBoundary ++ 61 :: (Spec.quote bkey ++ []))) hf (by intro y ys e; cases e; decide),
+      bne_self_eq_false, Bool.false_eq_true, if_false, hlow]
+    simp [kMultipart, kFormData]
+  have hpair := parsePairG_true_quoted kBoundary bkey [] (by decide) hbd
+  constructor
+  · unfold mediaType; rw [hmtr]
+  · unfold mkBoundary ctParameter
+    rw [hmtr]
+    have hcte : ctMultipart.isEmpty = false := by decide
+    simp only [hcte, Bool.false_eq_true, if_false]
+    have hlen : (59 :: 32 :: (kBoundary ++ 61 :: (Spec.quote bkey ++ []))).length = (kBoundary ++ 61 :: (Spec.quote bkey ++ [])).length + 1 + 1 := rfl
+    rw [hlen, ctParams, skipWs_id 59 _ (by decide) (by decide), hpair]
+    · simp only [hlb, List.any_nil, Bool.false_eq_true, if_false, List.nil_append]
+      have : ctParams ((kBoundary ++ 61 :: (Spec.quote bkey ++ [])).length + 1) [] [(kBoundary, bkey)] = [(kBoundary, bkey)] := by
+        rw [ctParams]
+        intro h; cases h
+      rw [this]
+      have hbe : bkey.isEmpty = false := by cases bkey <;> simp_all
+      simp [kBoundary, hbe, Spec.delimiter, Spec.crlf, Spec.dashes, ofNats, Gen.boundaryPrefix]
+    · intro h; cases h
+
 end Cppcms.C12
